@@ -7,7 +7,7 @@ for d in $(ls -d $root/C*/[A-Z] 2>/dev/null | sort); do
   if grep -q "^DONE" /tmp/confirm/$name.result 2>/dev/null; then continue; fi
   mkdir /tmp/confirm/$name.lock 2>/dev/null || continue   # another loop is on it
   # the go build cache grows by ~2 GB per confirmed seed (every worktree path is a new cache key): trim before the disk fills
-  avail=$(df --output=avail -BG / | tail -1 | tr -dc 0-9); if [ "${avail:-0}" -lt 40 ]; then find /root/.cache/go-build -type f -mmin +150 -delete 2>/dev/null; fi
+  avail=$(df --output=avail -BG / | tail -1 | tr -dc 0-9); if [ "${avail:-0}" -lt 15 ]; then find /root/.cache/go-build -type f -mmin +150 -delete 2>/dev/null; fi
   [ -f "$d/README.md" ] || { rmdir /tmp/confirm/$name.lock; continue; }   # the agent is still writing this seed
   /verif/tools/confirm_seed.sh "$d" "$name" > /tmp/confirm-$name.log 2>&1
   echo "$name: $(tr '\n' ';' < /tmp/confirm/$name.result | cut -c1-300)"
